@@ -184,7 +184,7 @@ static void case_begin(const pat_t * P) {
     V = vh_ctx_new(cmdtab, HDR_MAX + 8, 4, 128);
     V->log_enabled = 0;
     pair_no = 0;
-    vh_watchdog(30); /* a case takes well under a second; a matcher that loops is reported as a hang */
+    vh_watchdog(VH_ASAN ? 20 : 10); /* a case takes well under a second of CPU; a matcher that loops is reported as a hang */
 }
 static void case_end(void) {
     vh_ctx_free(V); V = NULL;
